@@ -238,7 +238,7 @@ func exploreScenario(rep *ev.Report, sc Scenario, bound int, rootOnly bool) {
 					// consequence of exactly what the property forbids ("the package keeps no mutable global state").
 					if g := secp256k1.VerifAllGlobals(); g != run.globals0 || (prelude.Baseline != "" && g != prelude.Baseline) {
 						rep.Violation("concurrent/package-level-state-changed", fmt.Sprintf("scenario %s, schedule [%s]: executing the same schedule twice gives different observations, and the package-level variables differ from their initial values: %s", sc, planString(plan), clipStr(g)),
-							Case{"op": "schedule", "scenario": sc.Encode(), "names": sc.String(), "plan": planString(plan), "granularity": map[bool]string{true: "G1", false: "G2"}[rootOnly]})
+							Case{"op": "schedule", "scenario": sc.Encode(), "names": sc.String(), "plan": planString(plan), "granularity": map[bool]string{true: "G1", false: "G2"}[rootOnly], "past": fmt.Sprint(conc.Past)})
 
 						return true
 					}
@@ -254,8 +254,8 @@ func exploreScenario(rep *ev.Report, sc Scenario, bound int, rootOnly bool) {
 					gname = "G1"
 				}
 
-				rep.Violation(key, fmt.Sprintf("scenario %s, schedule [%s] (%d preemptions): %s", sc, planString(plan), e.Preemptions(), detail),
-					Case{"op": "schedule", "scenario": sc.Encode(), "names": sc.String(), "plan": planString(plan), "granularity": gname})
+				rep.Violation(key, fmt.Sprintf("scenario %s%s, schedule [%s] (%d preemptions): %s", sc, map[bool]string{true: " on shared objects with a past", false: ""}[conc.Past], planString(plan), e.Preemptions(), detail),
+					Case{"op": "schedule", "scenario": sc.Encode(), "names": sc.String(), "plan": planString(plan), "granularity": gname, "past": fmt.Sprint(conc.Past)})
 			}
 
 			return false
@@ -268,7 +268,7 @@ func exploreScenario(rep *ev.Report, sc Scenario, bound int, rootOnly bool) {
 		if g := secp256k1.VerifAllGlobals(); g != run.globals0 || (prelude.Baseline != "" && g != prelude.Baseline) {
 			// see above: a prefix that does not replay identically because the package keeps state between calls
 			rep.Violation("concurrent/package-level-state-changed", fmt.Sprintf("scenario %s: %s, and the package-level variables differ from their initial values: %s", sc, x.ToolErr, clipStr(g)),
-				Case{"op": "schedule", "scenario": sc.Encode(), "names": sc.String(), "plan": "", "granularity": map[bool]string{true: "G1", false: "G2"}[rootOnly]})
+				Case{"op": "schedule", "scenario": sc.Encode(), "names": sc.String(), "plan": "", "granularity": map[bool]string{true: "G1", false: "G2"}[rootOnly], "past": fmt.Sprint(conc.Past)})
 		} else {
 			rep.ToolError("%s (scenario %s)", x.ToolErr, sc)
 		}
@@ -347,8 +347,12 @@ func C16sched(rep *ev.Report) {
 
 	pointsG2 := make([]int, len(conc.Ops))
 
+	spawns := make([]bool, len(conc.Ops))
+
 	for i, op := range conc.Ops {
+		g0 := verifrt.GoCount.Load()
 		pointsG2[i] = countPoints(op)
+		spawns[i] = verifrt.GoCount.Load() != g0
 		long[i] = pointsG2[i] > longThreshold
 
 		if long[i] {
@@ -404,9 +408,35 @@ func C16sched(rep *ev.Report) {
 		}
 	}
 
+	// an operation during which the library starts goroutines has interleavings of its own: one harness thread, the
+	// library's goroutines as the other threads of the execution
+	nSolo := 0
+
+	for i := range conc.Ops {
+		if spawns[i] {
+			scenarios = append(scenarios, Scenario{{i}})
+			nSolo++
+		}
+	}
+
+	rep.Bound("single_call_scenarios_for_operations_that_start_goroutines", nSolo)
 	rep.Bound("scenarios_total", len(scenarios))
 
+	// second pass: the two-thread scenarios whose operations name a shared element or scalar, on shared state WITH A
+	// PAST (conc.Past); pass 0 is the fresh state
+	nFirst := len(scenarios)
+
+	for _, sc := range scenarios[:nFirst] {
+		if len(sc) == 2 && len(sc[0]) == 1 && len(sc[1]) == 1 && conc.UsesSharedObject(conc.Ops[sc[0][0]].Name) && conc.UsesSharedObject(conc.Ops[sc[1][0]].Name) {
+			scenarios = append(scenarios, sc)
+		}
+	}
+
+	rep.Bound("scenarios_repeated_on_state_with_a_past", len(scenarios)-nFirst)
+
 	for i, sc := range scenarios {
+		conc.Past = i >= nFirst
+
 		// multiplicative hashing spreads the long operations evenly over the shards (i % sn would give one shard
 		// every pair whose second operation is a long one)
 		if int((uint32(i)*2654435761)>>16)%sn != si {
@@ -425,7 +455,7 @@ func C16sched(rep *ev.Report) {
 			}
 		}
 
-		simple := threads == 2 && ops == 2
+		simple := (threads == 2 && ops == 2) || (threads == 1 && ops == 1)
 
 		switch {
 		case !anyLong && simple:
@@ -455,12 +485,17 @@ func C16sched(rep *ev.Report) {
 		}
 	}
 
+	conc.Past = false
+
 	rep.Sample(Case{"op": "schedule", "scenario": "0|1", "names": Scenario{{0}, {1}}.String(), "plan": "0:1,7:0", "granularity": "G2"})
 	rep.Sample(Case{"op": "schedule", "scenario": "9|10", "names": Scenario{{9}, {10}}.String(), "plan": "12:1", "granularity": "G2"})
 }
 
 // ReplayC16 re-executes one recorded schedule.
 func ReplayC16(c Case) (bool, string) {
+	conc.Past = c["past"] == "true"
+	defer func() { conc.Past = false }()
+
 	sc := DecodeScenario(c["scenario"])
 	run := newRunner(sc)
 	e := Run(run.bodies(), parsePlan(c["plan"]), granularity(c["granularity"] == "G1"))
